@@ -2,7 +2,7 @@
  * Cells (case split outside the solver): MAG = magnitude class 0: < 1 min, 1: < 1 h, 2: < 1 day, 3: >= 1 day (usecs stays symbolic
  * inside the class); PREC = -1 (any negative value, symbolic) or 0..6; NINT = number of integer digits (1|2) of the seconds text.
  * CHECK 0: no exception + string surgery (formats, precision defaults, pad, result text), seconds text shape tied to the value;
- * CHECK 1: integer field arithmetic (ranges, recomposition); CHECK 2: the double handed to "%.*lf" is exactly
+ * CHECK 1: integer field arithmetic (ranges, recomposition); CHECK 3: days class: days field and ranges only; CHECK 2: the double handed to "%.*lf" is exactly
  *          (double)remaining_usecs / 1000000.  In CHECK 1/2 the shape of the seconds text is NOT tied to the value (any NINT).
  * libc's number formatting is a contract stub (vasprintf): it RECORDS the format and the numeric arguments and returns
  *   "%.*lf"(p, v)          -> an arbitrary string of the guaranteed shape: d+ if p == 0 else d+ '.' d{p}; the integer part has one
@@ -161,6 +161,13 @@ void harness(void) {
   if (kind == F_HM) { ASSERT(h >= 1 && h < 24, "hours field in [1,24)"); ASSERT(m < 60, "minutes field < 60"); }
   if (kind == F_DHM) { ASSERT(d >= 1 && d <= 213503982ULL, "days field in [1, 2^64/86400e6]"); ASSERT(h < 24, "hours field < 24"); ASSERT(m < 60, "minutes field < 60"); }
   ASSERT(whole <= usecs && usecs - whole < 60 * US, "fields recompose: usecs - (days, hours, minutes) in [0, 60 s)");
+#elif CHECK == 3
+  /* days class, the part of the field arithmetic the solver reaches: the days field is floor(usecs / 86400 s), hours < 24, minutes < 60.
+   * (That hours/minutes are the right residues needs floor(floor(x/a)/b) == floor(x/(ab)) across three 64-bit dividers: no verdict, see NOTES.) */
+  ASSERT(d >= 1 && d <= 213503982ULL, "days field in [1, 2^64/86400e6]");
+  ASSERT(d * 86400 * US <= usecs && usecs - d * 86400 * US < 86400 * US, "days field == floor(usecs / 86400 s)");
+  ASSERT(h < 24, "hours field < 24");
+  ASSERT(m < 60, "minutes field < 60");
 #else
   /* remaining microseconds written in the same shape as the definition (helps the SMT solver's congruence closure) */
   uint64_t rest = MAG == 0 ? usecs : MAG == 1 ? usecs - m * 60000000ULL : MAG == 2 ? usecs - h * 3600000000ULL - m * 60000000ULL
